@@ -706,7 +706,7 @@ class ExprMixin:
         if isinstance(t, T.Set):
             return z3.Select(c.z, coerce(x, t.elem).z)
         if isinstance(t, T.Map):
-            return z3.Select(t.dt.has(c.z), coerce(x, t.k).z)
+            return z3.Select(t.has(c.z), coerce(x, t.k).z)
         if isinstance(t, T._Str) and isinstance(x.t, T._Str):
             return self.str_contains(c.z, x.z, st)
         if isinstance(t, T.Tuple):
@@ -819,7 +819,7 @@ class ExprMixin:
             return self.loaded(SV(t.v, z), st, guard=z3.Select(has, k.z))
         if isinstance(t, T.Map):
             k = coerce(idx, t.k)
-            return SV(t.v, z3.Select(t.dt.val(obj.z), k.z))
+            return SV(t.v, z3.Select(t.mval(obj.z), k.z))
         if isinstance(t, T.Tuple):
             if not z3.is_int_value(idx.z):
                 raise Unsupported('tuple index must be constant')
